@@ -208,6 +208,10 @@ func scanStringLiteralToken(buf string, pos int) Token {
 		} else if c == '\n' {
 			// Go's interpreted string can't contain raw newline.
 			bb.WriteString("\\n")
+		} else if c == 0xef && isCharAt(buf, pos+i+1, 0xbb) && isCharAt(buf, pos+i+2, 0xbf) {
+			// Go rejects BOM in the middle of the file.
+			bb.WriteString("\\ufeff")
+			i += 2
 		} else {
 			bb.WriteByte(c)
 		}
@@ -239,6 +243,10 @@ func scanRawStringLiteralToken(buf string, pos int) Token {
 			bb.WriteString("\\\"")
 		} else if c == '\n' {
 			bb.WriteString("\\n")
+		} else if c == 0xef && isCharAt(buf, pos+i+1, 0xbb) && isCharAt(buf, pos+i+2, 0xbf) {
+			// Go rejects BOM in the middle of the file.
+			bb.WriteString("\\ufeff")
+			i += 2
 		} else {
 			bb.WriteByte(c)
 		}
